@@ -178,9 +178,13 @@ func (w *World) Path(p int) string {
 
 // static part: location maps (resolver and ECS), identical in all generations
 const staticText = `%\000\002,192.0.2.0/24,c\000
+%\000\072,198.18.0.0/24,c\000
+%\001\072,203.0.113.0/24,c\000
 %\000\001,0.0.0.0/0,c\000
 %\000\001,::/0,c\000
 %\000\002,192.0.2.0/24,ec
+%\000\072,198.18.0.0/24,ec
+%\001\072,203.0.113.0/24,ec
 %\000\001,0.0.0.0/0,ec
 %\000\001,::/0,ec
 Mexample.com,c\000
@@ -199,6 +203,9 @@ func stampedLines(s int, key bool) []string {
 		fmt.Sprintf("+www.example.com,10.0.%d.1,60,,", s),
 		fmt.Sprintf("+geo.example.com,10.1.%d.1,60,,\\000\\001", s),
 		fmt.Sprintf("+geo.example.com,10.2.%d.1,60,,\\000\\002", s),
+		// two locations whose ids agree in the second byte (and differ from 0/1, 0/2 in it)
+		fmt.Sprintf("+geo.example.com,10.3.%d.1,60,,\\000\\072", s),
+		fmt.Sprintf("+geo.example.com,10.4.%d.1,60,,\\001\\072", s),
 		fmt.Sprintf("@example.com,,mail.example.com,%d,300,,", s),
 		fmt.Sprintf("+mail.example.com,10.0.%d.2,60,,", s),
 		fmt.Sprintf("'txt.example.com,g-%d,60,,", s),
